@@ -1203,7 +1203,22 @@ func (e *Engine) handleClosureArg(lit *ast.FuncLit, fv VFunc, st *State, where s
 	step.defers = nil
 	npc := len(step.pc)
 	e.inLit++
+	// loop invariants inside the closure body may mention the index of the current call and the call log
+	savedCalls, hadCalls := e.selfNames["calls"]
+	savedFn, hadFn := e.selfNames["fn"]
+	e.selfNames["calls"] = VTerm{T: kc, Typ: types.Typ[types.Int]}
+	e.selfNames["fn"] = fv
 	outs := e.execBlock(lit.Body.List, step)
+	if hadCalls {
+		e.selfNames["calls"] = savedCalls
+	} else {
+		delete(e.selfNames, "calls")
+	}
+	if hadFn {
+		e.selfNames["fn"] = savedFn
+	} else {
+		delete(e.selfNames, "fn")
+	}
 	e.inLit--
 	lsig := fv.Sig
 	hasRet := lsig.Results().Len() == 1
